@@ -13,7 +13,7 @@ import ast
 from sa.model import AnalysisError, FuncInfo
 from sa.ctx import Ctx, short, stmt_key
 from sa.cfg import NORMAL, describe_path
-from sa.report import Report
+from sa.report import Report, section
 from sa.util import cfg_root, node_has_call, node_stores_attr, has_fact
 from sa import pat
 
@@ -304,12 +304,12 @@ def run(ctx: Ctx, rep: Report, tier: str):
                 rep.check("C06.R3b", "%s|%s" % (short(f_.qname), ast.unparse(n_)), ctx.line(f_, n_), okc, "identity / equality test", "cursor compared by order")
     rep.rule("C06.R1", "in _do_unsafe the cursor write is reachable only through the exhausted provider.events() loop (the `stopped` early "
              "return skips it) and every fetched event is applied", expect_min=2)
-    c.r1()
-    c.r2()
-    c.r3()
-    c.r4()
-    c.r5()
-    c.r6()
+    section(rep, c.r1)
+    section(rep, c.r2)
+    section(rep, c.r3)
+    section(rep, c.r4)
+    section(rep, c.r5)
+    section(rep, c.r6)
     from rules.common import alias
     from rules.C08 import C08
     alias(rep, ["C08.R6"], "C06.R7", "entries applied by the walk / by events are durable before the walk marker or cursor that vouches for them is written: "
@@ -318,9 +318,9 @@ def run(ctx: Ctx, rep: Report, tier: str):
     from rules.common import data_rows_follow_storage, first_init_completes_before_flag
     rep.rule("C06.R8", "cursor / walk-marker rows are managed from what storage holds: storage_delete_tag deletes every row read_all(tag) returns (not only a "
              "cached id), storage_update_data looks the tag up in storage before choosing update or create", 2)
-    data_rows_follow_storage(ctx, rep, "C06.R8")
+    section(rep, lambda: data_rows_follow_storage(ctx, rep, "C06.R8"))
     rep.rule("C06.R9", "the first step after a (re)start is repeated until it completed: _do_first_init clears _first_do after its last provider / state call", 1)
-    first_init_completes_before_flag(ctx, rep, "C06.R9")
+    section(rep, lambda: first_init_completes_before_flag(ctx, rep, "C06.R9"))
     rep.rule("C06.R10", "what was persisted is read back: _validate_root loads `self.cursor` from storage (under the cursor tag it just computed) on every path that "
              "declares the root validated; the walk obligation is recomputed from the stored cursor and walk marker", 2)
     vr = ctx.prog.func("EventManager._validate_root")
@@ -373,10 +373,10 @@ def run(ctx: Ctx, rep: Report, tier: str):
                   witness=describe_path(p_) if p_ else None)
     from rules.common import codec_keeps_tuples
     rep.rule("C06.R13", "what is reloaded equals what was stored, types included (C08.R8): a restart does not turn every tuple hash into a difference", 1)
-    codec_keeps_tuples(ctx, rep, "C06.R13")
+    section(rep, lambda: codec_keeps_tuples(ctx, rep, "C06.R13"))
     from rules.common import walk_propagates_faults
     rep.rule("C06.R14", "a walk that could not list a folder is not a complete walk (C10.T12): the walk marker is only written after a walk that saw every folder or failed", 1)
-    walk_propagates_faults(ctx, rep, "C06.R14")
+    section(rep, lambda: walk_propagates_faults(ctx, rep, "C06.R14"))
     from rules.common import alias as _alias6
     from rules.C10 import C10 as _C10
     _alias6(rep, ["C10.T7"], "C06.R15", "a download recorded before the stop is reused after the restart only for the content it came from: the persisted temp-file name is a "
